@@ -225,6 +225,62 @@ def anchor_ranges(prop):
     return out
 
 
+def map_ranges_to_tree(ranges):
+    """The anchors cite line numbers of the pinned tree; fixes have moved
+    lines since.  Map each cited range onto the current working tree by
+    diffing the file of the root commit against the current file: unchanged
+    lines map one to one, a changed block inside a range maps to the block
+    that replaced it.  Returns ({(file, current line)}, mapped?)."""
+    import difflib
+    import subprocess
+    repo = env.REPO
+    out = set()
+    mapped = True
+    by_file = {}
+    for f, a, b in ranges:
+        by_file.setdefault(f, []).append((a, b))
+    try:
+        root = subprocess.run(
+            ['git', '-C', repo, 'rev-list', '--max-parents=0', 'HEAD'],
+            capture_output=True, text=True, timeout=60).stdout.split()[-1]
+    except Exception:
+        root = None
+    for f, rs in by_file.items():
+        base = None
+        if root:
+            try:
+                r = subprocess.run(
+                    ['git', '-C', repo, 'show', '%s:yatiml/%s' % (root, f)],
+                    capture_output=True, text=True, timeout=60)
+                if r.returncode == 0:
+                    base = r.stdout.splitlines()
+            except Exception:
+                base = None
+        try:
+            with open(os.path.join(repo, 'yatiml', f)) as fh:
+                cur = fh.read().splitlines()
+        except OSError:
+            cur = None
+        if base is None or cur is None:
+            mapped = False
+            for a, b in rs:
+                out.update((f, ln) for ln in range(a, b + 1))
+            continue
+        sm = difflib.SequenceMatcher(None, base, cur, autojunk=False)
+        for tag, i1, i2, j1, j2 in sm.get_opcodes():
+            # base lines i1+1..i2 correspond to current lines j1+1..j2
+            for a, b in rs:
+                lo, hi = max(a, i1 + 1), min(b, i2)
+                if tag == 'equal':
+                    for ln in range(lo, hi + 1):
+                        out.add((f, ln - i1 + j1))
+                elif tag == 'replace' and lo <= hi:
+                    out.update((f, ln) for ln in range(j1 + 1, j2 + 1))
+                elif tag == 'insert' and a <= i1 < b:
+                    out.update((f, ln) for ln in range(j1 + 1, j2 + 1))
+    return out, mapped
+
+
 # ---------------------------------------------------------------------------
 # shard side
 
@@ -385,8 +441,8 @@ def run_property(prop, tier, seed):
     all_funcs, all_lines = inventory()
     never = sorted(all_funcs - funcs_hit)
     ranges = anchor_ranges(prop)
-    anchor_total = {(f, ln) for (f, ln) in all_lines
-                    if any(f == rf and a <= ln <= b for rf, a, b in ranges)}
+    anchored, anchors_mapped = map_ranges_to_tree(ranges)
+    anchor_total = {(f, ln) for (f, ln) in all_lines if (f, ln) in anchored}
     hit_pairs = set()
     for s in lines_hit:
         f, ln = s.rsplit(':', 1)
@@ -411,6 +467,7 @@ def run_property(prop, tier, seed):
         'yatiml_functions_entered': len(funcs_hit),
         'yatiml_functions_total': len(all_funcs),
         'yatiml_functions_never_entered': never,
+        'anchor_lines_mapped_from_pinned_tree': anchors_mapped,
         'anchor_lines_reached': len(anchor_hit),
         'anchor_lines_total': len(anchor_total),
         'anchor_lines_missed': sorted(
